@@ -1,7 +1,7 @@
 (* C02 oracle and non-triviality on wiring cases. Correspondence: Corr/Wiring.v [wcheck];
    oracles: Corr/WiringOracles.v (static scenario data + the implementation's observation only). *)
 From Coq Require Import List Arith Bool.
-From IocVerif Require Import Model.App Corr.Wiring Corr.WiringOracles Proofs.FactoryNoPanic Proofs.FactoryWiring Proofs.FactoryLiveness.
+From IocVerif Require Import Model.App Corr.Wiring Corr.WiringOracles Corr.WiringFacts Proofs.FactoryNoPanic Proofs.FactoryWiring Proofs.FactoryLiveness.
 Import ListNotations.
 
 Definition check_case : wcase -> bool := wcheck.
@@ -11,7 +11,7 @@ Definition check_case : wcase -> bool := wcheck.
    IMPLEMENTATION must have started successfully (the theorem says the model does) *)
 Definition live_hyp (c : wcase) : bool :=
   let s := normalise repaired (w_scn c) in
-  no_subst_b s && no_faults_b s && satisfiable_b repaired s && procs_pointless_b s && stages_ok_b s.
+  negb (has_extras c) && no_subst_b s && no_faults_b s && satisfiable_b repaired s && procs_pointless_b s && stages_ok_b s.
 
 Definition oracle_case (c : wcase) : bool := (if live_hyp c then ok_start c else true) && oracle_clean_outcome c && oracle_never_self c && oracle_cycles_succeed c && (if no_substitution c then oracle_points c else true).
 
